@@ -155,7 +155,7 @@ theorem dictGet_none (d : Dict) (k : Key) (h : ∀ v, (k, v) ∉ d) : dictGet d 
 /-! ### the row loop -/
 
 /-- the `Location` a row describes by itself -/
-def own (p : PRow) : Loc := ⟨p.id, nz p.lat, nz p.lon, nz p.elev⟩
+def own (p : PRow) : Loc := ⟨p.id, p.lat, p.lon, p.elev⟩
 
 /-- one (lat, lon, elev) per id -/
 def Consistent (all : List PRow) : Prop :=
@@ -367,57 +367,6 @@ theorem dedupFirst_nodup {α} [DecidableEq α] (l : List α) (h : l.Nodup) : ded
     intro a ha
     simp only [ne_eq, decide_not, Bool.not_eq_eq_eq_not, Bool.not_true, decide_eq_false_iff_not]
     intro e; subst e; exact h.1 ha
-
-theorem assignGo_ids (c : XR) (locs : List Loc) (h : ∀ l ∈ locs, l.id.isNan = false) :
-    assignGo c locs = locs.map (·.id) := by
-  induction locs generalizing c with
-  | nil => rfl
-  | cons l ls ih =>
-    have := h l (by simp)
-    simp [assignGo, this, ih c (fun x hx => h x (by simp [hx]))]
-
-theorem maxId_nan (locs : List Loc) (h : ∀ l ∈ locs, l.id = .nan) : maxId locs = .nan := by
-  unfold maxId
-  suffices ∀ ls : List Loc, (∀ l ∈ ls, l.id = .nan) →
-      ls.foldl (fun m l => if m.isNan then l.id else if XR.lt m l.id then l.id else m) .nan = .nan
-    from this locs h
-  intro ls
-  induction ls with
-  | nil => intro _; rfl
-  | cons l ls ih =>
-    intro hl
-    simp only [List.foldl_cons, XR.isNan, if_true, hl l (by simp)]
-    exact ih (fun x hx => hl x (by simp [hx]))
-
-theorem assignGo_nan (c : Rat) (locs : List Loc) (h : ∀ l ∈ locs, l.id = .nan) :
-    assignGo (.fin c) locs = (List.range locs.length).map (fun (i : Nat) => XR.fin (c + (i : Rat))) := by
-  induction locs generalizing c with
-  | nil => rfl
-  | cons l ls ih =>
-    have hl := h l (by simp)
-    have e : (XR.fin c + XR.fin 1 : XR) = XR.fin (c + 1) := rfl
-    simp only [assignGo, hl, XR.isNan, if_true, e, ih (c + 1) (fun x hx => h x (by simp [hx])),
-      List.length_cons, List.range_succ_eq_map, List.map_cons, List.map_map]
-    congr 1
-    · simp
-    · apply List.map_congr_left
-      intro i _
-      simp only [Function.comp, Nat.succ_eq_add_one]
-      push_cast
-      congr 1
-      ring
-
-theorem assignIds_nan (locs : List Loc) (h : ∀ l ∈ locs, l.id = .nan) :
-    assignIds locs = (List.range locs.length).map (fun (i : Nat) => XR.fin (i : Rat)) := by
-  unfold assignIds
-  simp only [maxId_nan locs h, XR.isNan, if_true]
-  rw [assignGo_nan 0 locs h]
-  apply List.map_congr_left
-  intro i _
-  simp
-
-theorem assignIds_ids (locs : List Loc) (h : ∀ l ∈ locs, l.id.isNan = false) :
-    assignIds locs = locs.map (·.id) := assignGo_ids _ locs h
 
 /-- thresholds / quantiles / members: ascending, and exactly the selected keys of the dictionary -/
 theorem params_spec (d : Dict) (sel : FKey → Option XR) (S : XR → Prop)
